@@ -1,7 +1,218 @@
 import M3d.Basic
-/-! Line-protocol handler for C06. Core-only. (stub) -/
-namespace M3d.Drv.C06
+import M3d.Model.Sdf
+/-!
+Line-protocol handler for C06 (signed distance fields). Core-only.
 
-def handleAll (ws : List String) : Option String := none
+`b.*` kinds: arguments are IEEE doubles as 16 hex digits; the models of `M3d/Model/Sdf.lean` are run at
+`Float` with `math.Sqrt ↦ Float.sqrt` and the answer is printed bit-for-bit (zeros are printed without sign,
+NaN as `nan`).  `x.*` kinds: arguments are exact rationals; the same models are run at `Rat`
+(`sqrt ↦ id`, so that a printed "distance" is the exact *squared* distance) and the answer is what the real
+code must return exactly on such inputs.
+-/
+namespace M3d.Drv.C06
+open M3d M3d.Sdf
+
+/-! ### Float side -/
+
+def envF : Env Float := ⟨Float.sqrt, Float.ofBits 0x3ee4f8b588e368f1, 0.5⟩
+
+def hx (x : Float) : String :=
+  if x.isNaN then "nan" else if x == 0 then "0000000000000000" else hexOfFloat x
+
+def v3s (v : V3 Float) : String := s!"{hx v.x} {hx v.y} {hx v.z}"
+def v2s (v : V2 Float) : String := s!"{hx v.x} {hx v.y}"
+def out3s (o : Out3 Float) : String := s!"{hx o.val} {v3s o.n} {v3s o.p}"
+def out2s (o : Out2 Float) : String := s!"{hx o.val} {v2s o.n} {v2s o.p}"
+
+def mk3 {α} : List α → Option (V3 α × List α)
+  | x :: y :: z :: rest => some (⟨x, y, z⟩, rest)
+  | _ => none
+def mk2 {α} : List α → Option (V2 α × List α)
+  | x :: y :: rest => some (⟨x, y⟩, rest)
+  | _ => none
+def mk1 {α} : List α → Option (α × List α)
+  | x :: rest => some (x, rest)
+  | _ => none
+
+def readTris {α} : Nat → Nat → List α → Option (List (Tri α × Nat) × List α)
+  | 0, _, xs => some ([], xs)
+  | n + 1, i, xs => do
+      let (a, xs) ← mk3 xs
+      let (b, xs) ← mk3 xs
+      let (c, xs) ← mk3 xs
+      let (ts, xs) ← readTris n (i + 1) xs
+      some ((⟨a, b, c⟩, i) :: ts, xs)
+
+def handleBits (kind : String) (ws : List String) : Option String := do
+  match kind with
+  | "b.mesh" =>
+      match ws with
+      | inb :: cnt :: gf :: n :: rest =>
+          let inb := inb == "1"
+          let cnt ← cnt.toNat?
+          let gf ← gf.toNat?
+          let n ← n.toNat?
+          let xs ← parseFloats rest
+          let (tris, xs) ← readTris n 0 xs
+          let (c, _) ← mk3 xs
+          match meshScan envF tris c with
+          | none => some "empty"
+          | some (d, _, _) =>
+              let f ← tris[gf]?
+              let cp := triClosest envF f.1.a f.1.b f.1.c c
+              let dg := cp.dist envF c
+              some s!"{hx (meshSign (parityInside inb cnt) d)} {v3s cp} {boolStr (dg == d)}"
+      | _ => none
+  | "b.coll" =>
+      match ws with
+      | [iters, contains, s] =>
+          let iters ← iters.toNat?
+          let s ← floatOfHex s
+          some (hx (colliderSDF (2 : Float) (fun r => decide (absS s ≤ r)) (contains == "1") iters))
+      | _ => none
+  | _ =>
+  let xs ← parseFloats ws
+  match kind with
+  | "b.sphere" => do
+      let (ce, xs) ← mk3 xs; let (r, xs) ← mk1 xs; let (c, _) ← mk3 xs
+      let o := sphereOut envF ce r c
+      some s!"{hx (sphereSDF envF ce r c)} {out3s o}"
+  | "b.circle" => do
+      let (ce, xs) ← mk2 xs; let (r, xs) ← mk1 xs; let (c, _) ← mk2 xs
+      let o := circleOut envF ce r c
+      some s!"{hx (circleSDF envF ce r c)} {out2s o}"
+  | "b.rect3" => do
+      let (lo, xs) ← mk3 xs; let (hi, xs) ← mk3 xs; let (c, _) ← mk3 xs
+      some (out3s (rectOut3 envF lo hi c))
+  | "b.rect2" => do
+      let (lo, xs) ← mk2 xs; let (hi, xs) ← mk2 xs; let (c, _) ← mk2 xs
+      some (out2s (rectOut2 envF lo hi c))
+  | "b.caps3" => do
+      let (p1, xs) ← mk3 xs; let (p2, xs) ← mk3 xs; let (r, xs) ← mk1 xs; let (c, _) ← mk3 xs
+      some (out3s (capsuleOut3 envF p1 p2 r c))
+  | "b.caps2" => do
+      let (p1, xs) ← mk2 xs; let (p2, xs) ← mk2 xs; let (r, xs) ← mk1 xs; let (c, _) ← mk2 xs
+      some (out2s (capsuleOut2 envF p1 p2 r c))
+  | "b.cyl" => do
+      let (p1, xs) ← mk3 xs; let (p2, xs) ← mk3 xs; let (r, xs) ← mk1 xs; let (c, _) ← mk3 xs
+      some (out3s (cylinderOut envF p1 p2 r c))
+  | "b.cone" => do
+      let (tip, xs) ← mk3 xs; let (base, xs) ← mk3 xs; let (r, xs) ← mk1 xs; let (c, _) ← mk3 xs
+      some (out3s (coneOutOld envF tip base r c))
+  | "b.torus" => do
+      let (ce, xs) ← mk3 xs; let (ax, xs) ← mk3 xs; let (ro, xs) ← mk1 xs; let (ri, xs) ← mk1 xs
+      let (c, _) ← mk3 xs
+      some (out3s (torusOut envF ce ax ro ri c))
+  | "b.tri2" => do
+      let (p0, xs) ← mk2 xs; let (p1, xs) ← mk2 xs; let (p2, xs) ← mk2 xs; let (c, _) ← mk2 xs
+      let (o, (b0, b1, b2)) := tri2Out envF p0 p1 p2 c
+      some s!"{out2s o} {hx b0} {hx b1} {hx b2}"
+  | "b.seg3" => do
+      let (s0, xs) ← mk3 xs; let (s1, xs) ← mk3 xs; let (c, _) ← mk3 xs
+      some s!"{v3s (segClosest3 envF s0 s1 c)} {hx (segDist3 envF s0 s1 c)}"
+  | "b.seg2" => do
+      let (s0, xs) ← mk2 xs; let (s1, xs) ← mk2 xs; let (c, _) ← mk2 xs
+      some s!"{v2s (segClosest2 envF s0 s1 c)} {hx (segDist2 envF s0 s1 c)}"
+  | "b.tri3" => do
+      let (t0, xs) ← mk3 xs; let (t1, xs) ← mk3 xs; let (t2, xs) ← mk3 xs; let (c, _) ← mk3 xs
+      some s!"{v3s (triClosest envF t0 t1 t2 c)} {hx (triDist envF t0 t1 t2 c)}"
+  | "b.prof" => do
+      let (minZ, xs) ← mk1 xs; let (maxZ, xs) ← mk1 xs; let (p2, xs) ← mk2 xs; let (s, xs) ← mk1 xs
+      let (c, _) ← mk3 xs
+      let (p, v) := profilePointSDF envF minZ maxZ p2 s c
+      some s!"{hx (profileSDF envF minZ maxZ s c.z)} {hx v} {v3s p}"
+  | _ => none
+
+/-! ### Rat side -/
+
+/-- `sqrt ↦ id`: every "distance" of the model is then the exact squared distance. -/
+def envQ : Env Rat := ⟨id, 1 / 100000, 1 / 2⟩
+
+def isPow2 (n : Nat) : Bool := n != 0 && (n &&& (n - 1)) == 0
+
+/-- exact conversion of a small dyadic rational to `Float` -/
+def ratToFloat (q : Rat) : Option Float :=
+  if isPow2 q.den && q.num.natAbs < 2 ^ 53 then some (Float.ofInt q.num / Float.ofNat q.den) else none
+
+def q3s (v : V3 Rat) : String := s!"{showRat v.x} {showRat v.y} {showRat v.z}"
+def q2s (v : V2 Rat) : String := s!"{showRat v.x} {showRat v.y}"
+def faceS (f : Face) : String := s!"{f.1} {boolStr f.2}"
+
+def veq3 (a b : V3 Rat) : Bool := a.x == b.x && a.y == b.y && a.z == b.z
+def veq2 (a b : V2 Rat) : Bool := a.x == b.x && a.y == b.y
+
+def handleExact (kind : String) (ws : List String) : Option String := do
+  match kind with
+  | "x.mesh" =>
+      match ws with
+      | gf :: n :: rest =>
+          let gf ← gf.toNat?
+          let n ← n.toNat?
+          let xs ← parseRats rest
+          let (tris, xs) ← readTris n 0 xs
+          let (c, _) ← mk3 xs
+          let sq := fun (t : Tri Rat × Nat) => (triClosestQ t.1.a t.1.b t.1.c c).sqDist c
+          let f ← tris[gf]?
+          let best := tris.foldl (fun m t => if sq t < m then sq t else m) (sq f)
+          some (boolStr (sq f == best))
+      | _ => none
+  | _ =>
+  let xs ← parseRats ws
+  match kind with
+  | "x.rect3" => do
+      let (lo, xs) ← mk3 xs; let (hi, xs) ← mk3 xs; let (c, _) ← mk3 xs
+      let o := rectOut3 envQ lo hi c
+      if rectContains3 lo hi c then
+        let f := (rectInsidePick3 lo hi c).2
+        let v ← ratToFloat o.val
+        some s!"in {showRat (c.sqDist o.p)} {hx v} {faceS f} {q3s o.p}"
+      else
+        let s := c.sqDist o.p
+        let sf ← ratToFloat s
+        let f := normalAtFace3 lo hi o.p
+        some s!"out {showRat s} {hx (-(Float.sqrt sf))} {faceS f} {q3s o.p}"
+  | "x.rect2" => do
+      let (lo, xs) ← mk2 xs; let (hi, xs) ← mk2 xs; let (c, _) ← mk2 xs
+      let o := rectOut2 envQ lo hi c
+      if rectContains2 lo hi c then
+        let f := (rectInsidePick2 lo hi c).2
+        let v ← ratToFloat o.val
+        some s!"in {showRat (c.sqDist o.p)} {hx v} {faceS f} {q2s o.p}"
+      else
+        let s := c.sqDist o.p
+        let sf ← ratToFloat s
+        let f := normalAtFace2 lo hi o.p
+        some s!"out {showRat s} {hx (-(Float.sqrt sf))} {faceS f} {q2s o.p}"
+  | "x.seg3" => do
+      let (s0, xs) ← mk3 xs; let (s1, xs) ← mk3 xs; let (c, _) ← mk3 xs
+      let q := segClosestQ3 s0 s1 c
+      some (if veq3 q s0 then s!"0 {q3s q}" else if veq3 q s1 then s!"1 {q3s q}" else "i")
+  | "x.seg2" => do
+      let (s0, xs) ← mk2 xs; let (s1, xs) ← mk2 xs; let (c, _) ← mk2 xs
+      let q := segClosestQ2 s0 s1 c
+      some (if veq2 q s0 then s!"0 {q2s q}" else if veq2 q s1 then s!"1 {q2s q}" else "i")
+  | "x.tri3" => do
+      let (t0, xs) ← mk3 xs; let (t1, xs) ← mk3 xs; let (t2, xs) ← mk3 xs; let (c, _) ← mk3 xs
+      let q := triClosestQ t0 t1 t2 c
+      some (if veq3 q t0 then "v0" else if veq3 q t1 then "v1" else if veq3 q t2 then "v2" else "o")
+  | "x.tri2" => do
+      let (p0, xs) ← mk2 xs; let (p1, xs) ← mk2 xs; let (p2, xs) ← mk2 xs; let (c, _) ← mk2 xs
+      let pk := pickMin (tri2EdgeCand 0 p0 p1 c) [tri2EdgeCand 1 p1 p2 c, tri2EdgeCand 2 p2 p0 c]
+      let inside := tri2Contains p0 p1 p2 c
+      let vert := pk.2.2.2.1
+      if vert < 3 then
+        let sf ← ratToFloat pk.1
+        let d := Float.sqrt sf
+        some s!"v{vert} {showRat pk.1} {hx (if inside then d else -d)}"
+      else some s!"e{pk.2.2.2.2} {boolStr inside}"
+  | _ => none
+
+def handleAll (ws : List String) : Option String :=
+  match ws with
+  | kind :: rest =>
+      if kind.startsWith "b." then handleBits kind rest
+      else if kind.startsWith "x." then handleExact kind rest
+      else none
+  | _ => none
 
 end M3d.Drv.C06
